@@ -81,6 +81,8 @@ def gen_channel(rng, scheme, kind):
 
 def _gen_channel(rng, scheme, kind):
     scale = 10.0 ** rng.uniform(-2, 2)
+    if rng.random() < 0.15:
+        scale = 10.0 ** rng.uniform(-8, -5)        # a channel that includes path loss
     if scheme in ("blast", "svd", "gmd"):
         Nt = int(rng.integers(1, 7))
         Nr = int(rng.integers(Nt, 9))
@@ -126,20 +128,38 @@ def case_roundtrip(ctx, rng, idx):
     scheme = SCHEMES[idx % len(SCHEMES)]
     kind = SVK[(idx // len(SCHEMES)) % len(SVK)]
     obj = None
+    buf = None
     monitors.ACTIVE[0] = ctx
     try:
         rounds = int(rng.integers(1, 4))
         for r in range(rounds):
             given, H, kap = gen_channel(rng, scheme, kind)
+            if r > 0 and buf is not None and np.iscomplexobj(buf) and rng.random() < 0.4:
+                # a new realisation of the same dimensions (for the refilled buffer)
+                Hn = num.randn_c(rng, *prevH.shape) * float(np.linalg.norm(prevH, 2))
+                sv = np.linalg.svd(Hn, compute_uv=False)
+                if sv[-1] > 1e-3 * sv[0]:
+                    H, kap = Hn, float(sv[0] / sv[-1])
+                    given = Hn.reshape(buf.shape)
+            prevH = H
             Nr, Nt = H.shape
             tag = {"scheme": scheme, "Nr": Nr, "Nt": Nt, "kappa": kap, "svals": kind,
                    "round": r, "H": H}
             if obj is None or rng.random() < 0.3:
                 how = "ctor"
-                okc, obj = ctx.call("round-trip", CLASSES[scheme], given.copy(), detail=tag)
+                buf = given.copy()
+                okc, obj = ctx.call("round-trip", CLASSES[scheme], buf, detail=tag)
+            elif buf is not None and buf.shape == given.shape and buf.dtype == given.dtype \
+                    and rng.random() < 0.5:
+                # the caller keeps ONE channel buffer: the new realisation is written
+                # into it in place and the same array object is handed over again
+                how = "set_channel_matrix(same buffer refilled)"
+                buf[...] = given
+                okc, _ = ctx.call("round-trip", obj.set_channel_matrix, buf, detail=tag)
             else:
                 how = "set_channel_matrix"
-                okc, _ = ctx.call("round-trip", obj.set_channel_matrix, given.copy(), detail=tag)
+                buf = given.copy()
+                okc, _ = ctx.call("round-trip", obj.set_channel_matrix, buf, detail=tag)
             if not okc:
                 return
             if scheme in ("blast", "mrc", "gmd") and rng.random() < 0.7:
